@@ -94,8 +94,9 @@ def run(rng):
             sig = "BARTMAP.fit/non-square-IndexError"
         elif isinstance(e, ValueError) and "length at least 2" in str(e):
             sig = "BARTMAP.fit/singleton-column-cluster-ValueError"
-        elif isinstance(e, ValueError) and "X_a has length 0" in str(e):
-            sig = "BARTMAP.fit/empty-column-cluster-ValueError"
+        elif (isinstance(e, ValueError) and "X_a has length 0" in str(e) and hasattr(est, "column_labels_")
+              and any(c not in set(int(v) for v in est.column_labels_) for c in range(int(est.module_b.n_clusters)))):
+            sig = "BARTMAP.fit/empty-column-cluster-ValueError"        # only when a column cluster really is empty
         elif (isinstance(e, ValueError) and "at least one array" in str(e) and type(est.module_a).__name__ == "TopoART"
               and len(est.module_a.W) == 0):
             sig = "BARTMAP.fit/topo-row-module-all-pruned-ValueError"
